@@ -221,6 +221,7 @@ func (d *Diamond) implCommit(opts ...Option) (err error) {
 type mergeEntry struct {
 	model.BundleEntry        // single file
 	ID                string // split ID which uploaded this file
+	origin            string // for a file moved aside as a conflict or checkpoint: its original path
 }
 
 // mergeSplits merges all files from splits and resolves conflicts
@@ -305,6 +306,7 @@ func (d *Diamond) mergeSplits(filePackedC chan<- filePacked, errorC chan<- error
 					default:
 						// report conflict/checkpoint: add conflicting file to the bundle in some special location
 						// (e.g. .conflicts/{splitID}/{path}) and update the key with the newer file
+						existing.origin = existing.NameWithPath
 						existing.NameWithPath = d.deconflicter(existing.ID, existing.NameWithPath)
 						d.l.Debug("deconflicting", zap.String("from", file.NameWithPath), zap.String("to", existing.NameWithPath))
 						mergeIndex, _, _ = mergeIndex.Insert([]byte(existing.NameWithPath), existing)
@@ -325,7 +327,7 @@ func (d *Diamond) mergeSplits(filePackedC chan<- filePacked, errorC chan<- error
 						newEntry := file
 						newEntry.NameWithPath = d.deconflicter(splitID, existing.NameWithPath)
 						d.l.Debug("deconflicting", zap.String("from", file.NameWithPath), zap.String("to", newEntry.NameWithPath))
-						mergeIndex, _, _ = mergeIndex.Insert([]byte(d.deconflicter(splitID, file.NameWithPath)), mergeEntry{BundleEntry: newEntry, ID: splitID})
+						mergeIndex, _, _ = mergeIndex.Insert([]byte(d.deconflicter(splitID, file.NameWithPath)), mergeEntry{BundleEntry: newEntry, ID: splitID, origin: file.NameWithPath})
 						conflicts++
 
 					case model.ForbidConflicts:
@@ -351,8 +353,15 @@ func (d *Diamond) mergeSplits(filePackedC chan<- filePacked, errorC chan<- error
 		t0 = time.Now()
 		iterator := mergeIndex.Root().Iterator()
 		for _, obj, ok := iterator.Next(); ok; _, obj, ok = iterator.Next() {
-			bundleEntries++
 			existing := obj.(mergeEntry)
+			if existing.origin != "" {
+				// a version moved aside while merging may turn out to be identical to the version eventually
+				// retained for its path (depending on the order of arrival): this is no conflict
+				if retained, ok := mergeIndex.Get([]byte(existing.origin)); ok && retained.(mergeEntry).Hash == existing.Hash {
+					continue
+				}
+			}
+			bundleEntries++
 			d.l.Debug("merge sending", zap.String("entry", existing.NameWithPath))
 			output <- mergeEntryToFilePacked(existing)
 		}
